@@ -10,7 +10,7 @@ package stack
 //	fam 0: state, lock flag, sleep            (frames/args identical)
 //	fam 1: argument values / pointer-ness     (1 frame: scalar, 1-field aggregate, scalar)
 //	fam 2: frame function, file, line         (no args)
-//	fam 3: creator function/line              (one constant frame)
+//	fam 3: creator: none, one frame or a chain of two; function/line of each (one constant frame)
 //	fam 4: location class / main flag         (ordering; no args)
 //	fam 5: args: too-large marker ("_", value 0 as parsed), small values, elision
 //	fam 6: args: named pointers (name is a function of the value, as nameArguments leaves them)
@@ -150,6 +150,14 @@ func vhSnapshot(k, fam, nf, nfLast, perm int) *Snapshot {
 				cb.RemoteSrcPath = "/c.go"
 				cb.Line = vInt(tag + ".cb.line")
 				g.CreatedBy.Calls = []Call{cb}
+				if vBool(tag + ".chain") {
+					// a creator chain (race reports: "created at:" sections)
+					cb2 := Call{}
+					cb2.Func.Complete = vString(tag+".cb2.fn", 1)
+					cb2.RemoteSrcPath = "/c.go"
+					cb2.Line = vInt(tag + ".cb2.line")
+					g.CreatedBy.Calls = append(g.CreatedBy.Calls, cb2)
+				}
 			}
 		case famLoc:
 			g.Locked = vBool(tag + ".locked")
@@ -338,8 +346,10 @@ func VH_Agg_Generalises(k, fam, level, perm int) {
 		for i, g := range s.Goroutines {
 			vAssert(vImplies(in[i], b.State == g.State), "bucket state is every member's state")
 			vAssert(vImplies(in[i], len(b.CreatedBy.Calls) == len(g.CreatedBy.Calls)), "bucket creator shape is every member's")
-			if len(b.CreatedBy.Calls) == 1 && len(g.CreatedBy.Calls) == 1 {
-				vAssert(vImplies(in[i], vAnd(b.CreatedBy.Calls[0].Func.Complete == g.CreatedBy.Calls[0].Func.Complete, b.CreatedBy.Calls[0].Line == g.CreatedBy.Calls[0].Line)), "bucket creator is every member's creator")
+			if len(b.CreatedBy.Calls) == len(g.CreatedBy.Calls) {
+				for ci := range b.CreatedBy.Calls {
+					vAssert(vImplies(in[i], vAnd(b.CreatedBy.Calls[ci].Func.Complete == g.CreatedBy.Calls[ci].Func.Complete, b.CreatedBy.Calls[ci].Line == g.CreatedBy.Calls[ci].Line)), "bucket creator is every member's creator")
+				}
 			}
 			lockedAny = vOr(lockedAny, vAnd(in[i], g.Locked))
 			minOK = vAnd(minOK, vImplies(in[i], b.SleepMin <= g.SleepMin))
